@@ -265,6 +265,35 @@ def spec_configs(spec, thorough):
     return out
 
 
+_REAL = None
+
+
+def _real_spec(sid):
+    """the repository's specification for document `sid` of the translator's enumeration, matched by CONTENT (kind + data of the YAML
+    document read again from its file), never by position: the order in which a repository enumerates its directory is C02's
+    subject, not this check's"""
+    global _REAL
+    if _REAL is None:
+        import json
+        import yaml
+        from pathlib import Path
+        from simaple.data.jobs import builtin
+        import simaple.data.jobs as jobs_pkg
+        base = Path(jobs_pkg.__file__).parent / "resources"
+        pool = {}
+        for s in builtin.get_kms_jobs_repository()._db:
+            pool.setdefault((s.kind, json.dumps(s.data, sort_keys=True, default=str, ensure_ascii=False)), []).append(s)
+        cache, _REAL = {}, {}
+        for i, sp in enumerate(META["specs"]):
+            if sp["file"] not in cache:
+                with open(base / sp["file"], "r", encoding="utf-8") as f:
+                    cache[sp["file"]] = list(yaml.safe_load_all(f))
+            d = cache[sp["file"]][sp["index"]]
+            q = pool.get((d["kind"], json.dumps(d["data"], sort_keys=True, default=str, ensure_ascii=False))) or []
+            _REAL[i] = q.pop(0) if q else None
+    return _REAL.get(sid)
+
+
 def layer_a_task(args):
     """one specification: apply the real patches for every configuration; returns rows (sid, cfgkey, sv, {fid: value} | error)"""
     sid, sv, thorough = args
@@ -273,11 +302,11 @@ def layer_a_task(args):
     from simaple.core import Stat
     from simaple.spec.patch import ArithmeticPatch
     spec = META["specs"][sid]
-    real = builtin.get_kms_jobs_repository()._db[sid]
+    real = _real_spec(sid)
     fs = [f for f in META["formulas"] if f["spec"] == sid]
     rows = []
-    if real.kind != spec["kind"] or real.data.get("name") != spec["name"]:
-        return [(sid, None, sv, "repository order differs: %r vs %r" % ((real.kind, real.data.get("name")), (spec["kind"], spec["name"])))]
+    if real is None:
+        return [(sid, None, sv, "the repository serves no specification equal to document %s (%s %r)" % (spec["where"], spec["kind"], spec["name"]))]
     s = STATS[sv]
     if spec["kind"] in ("Component", "SkillImprovement"):
         def variables(p, c):
